@@ -36,8 +36,9 @@ def run(ctx):
         isint = rng.random() < 0.8
         if isint:
             big = rng.random() < 0.15
-            spec = zoo.int_spec(rng, n=int(rng.integers(5, 40)), d=int(rng.integers(2, 5)),
-                                res=int(rng.choice([65536, 262144])) if big else int(rng.choice([256, 1024, 4096, 1000, 1023])))
+            huge = cid[1] % 45 == 11          # a 20-bit channel: the default bin count is its resolution (2^20 bins), uncapped
+            spec = zoo.int_spec(rng, n=int(rng.integers(5, 40)), d=int(rng.integers(2, 5)) if not huge else 2, width=32 if huge else None,
+                                res=(1 << 20) if huge else (int(rng.choice([65536, 262144])) if big else int(rng.choice([256, 1024, 4096, 1000, 1023]))))
         else:
             spec = zoo.float_spec(rng, n=int(rng.integers(5, 40)), d=int(rng.integers(2, 5)))
             if rng.random() < 0.5:
